@@ -27,7 +27,8 @@ SKIP_BODY = [re.compile(r"as std::fmt::(Debug|Display)>::fmt$"), re.compile(r"as
 
 
 def is_model(path):
-    return any(path.startswith(m) or ("<" + m) in path[:60] for m in MODEL_MODULES) or "prometheus::proto::" in path.split(" as ")[0][:80]
+    return any(path.startswith(m) or ("<" + m) in path[:60] for m in MODEL_MODULES) or "prometheus::proto::" in path.split(" as ")[0][:80] \
+        or bool(re.search(r" as prometheus::(proto|proto_ext|plain_model)::", path))
 
 
 def norm_callee(c):
@@ -187,7 +188,38 @@ def find_model_method(f, ty, m):
         st = re.sub(r"protobuf::MessageField<(.*)>", r"\1", st)
         if st.split("::")[-1] == ty or ty == "?":
             cands.append(b)
+        elif st in (b.raw.get("generics") or []) and ty != "?":
+            # a blanket impl over `MessageField<M>` (M: some private trait of the model): for the message type asked for it is the impl with M fixed and the
+            # trait's method for that type expanded
+            sp = _specialise_model_method(f, b, st, ty)
+            if sp is not None:
+                cands.append(sp)
     return cands
+
+
+def _specialise_model_method(f, b, param, ty):
+    import copy
+    from pvrules import inline
+    from pvrules.mir import Body
+    full = [p_ for p_ in f.adts if p_.split("::")[-1] == ty and p_.startswith("prometheus::proto::")]
+    if len(full) != 1:
+        return None
+    by_path = {}
+    for rb in f.raw["bodies"]:
+        by_path.setdefault(rb["path"], rb)
+    raw = copy.deepcopy(b.raw)
+    hit = []
+    for bb in raw["blocks"]:
+        t = bb["term"]
+        if t.get("k") == "call":
+            inline._respecialise(t, {param: full[0]}, by_path)
+            if t.get("inl_respecialised"):
+                hit.append(t["res"])
+    if not hit:
+        return None
+    nb = Body(raw, f)
+    nb.key = getattr(b, "key", raw["path"])
+    return inline.expand_body(f, nb, lambda pth: pth in hit, depth=2)
 
 
 def classify(f, b):
@@ -307,7 +339,8 @@ def run(ctx):
     ctx.rule("R0", "both configurations build and are analysed: default features and --no-default-features")
     # new methods of the two data models (src/plain_model.rs / the generated model + proto_ext.rs) stay calls: they are compared as model methods (R2/R3), not as part
     # of the shared code that uses them
-    model = lambda pth: bool(re.match(r"^<?(impl )?prometheus::(proto|proto_ext|plain_model)::", pth)) or "prometheus::proto::" in pth.split(" as ")[0]   # noqa: E731
+    model = lambda pth: bool(re.match(r"^<?(impl )?prometheus::(proto|proto_ext|plain_model)::", pth)) or "prometheus::proto::" in pth.split(" as ")[0] \
+        or bool(re.search(r" as prometheus::(proto|proto_ext|plain_model)::", pth))   # noqa: E731   (an impl of a model trait, e.g. a blanket impl over MessageField<M>)
     fd = ctx.facts("default", keep_helper=model, variant="#models-kept")
     fp = ctx.facts("plain", keep_helper=model, variant="#models-kept")
     ctx.ob("R0", "both-configs-typecheck", "protobuf" in fd.features and "protobuf" not in fp.features, "fact bases of both feature configurations extracted (features %s / %s)" % (fd.features, fp.features))
